@@ -42,8 +42,12 @@ struct Node {
 type Tree = Vec<Node>;
 
 fn all_trees(n: usize) -> Vec<Tree> {
+    all_trees_over(n, KINDS)
+}
+
+fn all_trees_over(n: usize, kinds: &[Kind]) -> Vec<Tree> {
     // parent indices non-decreasing (canonical up to sibling order)
-    fn rec(n: usize, cur: &mut Tree, out: &mut Vec<Tree>) {
+    fn rec(n: usize, kinds: &[Kind], cur: &mut Tree, out: &mut Vec<Tree>) {
         if cur.len() == n {
             out.push(cur.clone());
             return;
@@ -59,15 +63,15 @@ fn all_trees(n: usize) -> Vec<Tree> {
             }
         }
         for p in parents {
-            for &k in KINDS {
+            for &k in kinds {
                 cur.push(Node { kind: k, parent: p });
-                rec(n, cur, out);
+                rec(n, kinds, cur, out);
                 cur.pop();
             }
         }
     }
     let mut out = vec![];
-    rec(n, &mut vec![], &mut out);
+    rec(n, kinds, &mut vec![], &mut out);
     out
 }
 
@@ -359,6 +363,175 @@ fn tree_text(t: &Tree) -> String {
     t.iter().enumerate().map(|(i, n)| format!("{}:{:?}@{}", i, n.kind, n.parent.map_or("root".to_string(), |p| p.to_string()))).collect::<Vec<_>>().join(" ")
 }
 
+// ---------------------------------------------------------------------------
+// Layer 2: deeper trees with an ignore file in ONE directory of the tree.
+// The rule names one node; it must hide that name inside the subtree of the
+// directory holding the file and nowhere else — in both walkers, whatever
+// the order in which the walker leaves and enters directories.
+
+struct Nested {
+    walks: u64,
+    trees: usize,
+    cases: u64,
+    cases_where_the_rule_hides_something: u64,
+    cases_with_the_named_entry_outside_the_subtree: u64,
+    disc: Vec<(String, Value)>,
+}
+
+fn nested_ignore_layer(tier: Tier) -> Nested {
+    let maxn = tier.pick(4, 5);
+    let mut trees: Vec<Tree> = vec![];
+    for n in 2..=maxn {
+        trees.extend(all_trees_over(n, &[Kind::Dir, Kind::File]).into_iter().filter(|t| t.iter().any(|n| n.kind == Kind::Dir)));
+    }
+    // (tree, holder: None = root or Some(dir node), named node)
+    let mut work: Vec<(usize, Option<usize>, usize)> = vec![];
+    for (ti, t) in trees.iter().enumerate() {
+        let mut holders: Vec<Option<usize>> = vec![None];
+        holders.extend(t.iter().enumerate().filter(|(_, n)| n.kind == Kind::Dir).map(|(i, _)| Some(i)));
+        for h in holders {
+            for named in 0..t.len() {
+                if Some(named) == h {
+                    continue;
+                }
+                work.push((ti, h, named));
+            }
+        }
+    }
+    let out = Mutex::new(Nested { walks: 0, trees: trees.len(), cases: 0, cases_where_the_rule_hides_something: 0, cases_with_the_named_entry_outside_the_subtree: 0, disc: vec![] });
+    let next = std::sync::atomic::AtomicUsize::new(0);
+    std::thread::scope(|s| {
+        for _ in 0..ncpu() * 4 {
+            s.spawn(|| {
+                let mut local = Nested { walks: 0, trees: 0, cases: 0, cases_where_the_rule_hides_something: 0, cases_with_the_named_entry_outside_the_subtree: 0, disc: vec![] };
+                loop {
+                    let i = next.fetch_add(1, std::sync::atomic::Ordering::Relaxed);
+                    if i >= work.len() {
+                        break;
+                    }
+                    let (ti, holder, named) = work[i];
+                    let t = &trees[ti];
+                    let scratch = Scratch::new("c06n");
+                    let root = scratch.path.join("root");
+                    std::fs::create_dir_all(&root).unwrap_or_else(|_| machinery_error("scratch"));
+                    for (k, nd) in t.iter().enumerate() {
+                        let p = root.join(rel_path(t, k));
+                        let r = if nd.kind == Kind::Dir { std::fs::create_dir(&p) } else { std::fs::write(&p, b"x") };
+                        if r.is_err() {
+                            machinery_error("cannot build the scratch tree");
+                        }
+                    }
+                    let holder_dir = match holder {
+                        None => root.clone(),
+                        Some(h) => root.join(rel_path(t, h)),
+                    };
+                    std::fs::write(holder_dir.join(".ignore"), format!("{}\n", node_name(named, t[named].kind))).unwrap();
+                    // reference: node k is hidden iff it or one of its ancestors
+                    // is the named node AND that one lies strictly inside the
+                    // holder's subtree
+                    let inside = |k: usize| -> bool {
+                        match holder {
+                            None => true,
+                            Some(h) => {
+                                let mut p = t[k].parent;
+                                while let Some(pi) = p {
+                                    if pi == h {
+                                        return true;
+                                    }
+                                    p = t[pi].parent;
+                                }
+                                false
+                            }
+                        }
+                    };
+                    let name_of = |k: usize| node_name(k, t[k].kind);
+                    let hidden = |k: usize| -> bool {
+                        let mut cur = Some(k);
+                        while let Some(c) = cur {
+                            if name_of(c) == name_of(named) && inside(c) {
+                                return true;
+                            }
+                            cur = t[c].parent;
+                        }
+                        false
+                    };
+                    let mut want: BTreeMap<String, usize> = BTreeMap::new();
+                    want.insert("root".into(), 1);
+                    for k in 0..t.len() {
+                        if !hidden(k) {
+                            want.insert(format!("root/{}", rel_path(t, k)), 1);
+                        }
+                    }
+                    local.cases += 1;
+                    if want.len() < t.len() + 1 {
+                        local.cases_where_the_rule_hides_something += 1;
+                    }
+                    if !inside(named) {
+                        local.cases_with_the_named_entry_outside_the_subtree += 1;
+                    }
+                    let mk = || {
+                        let mut b = WalkBuilder::new(&root);
+                        b.standard_filters(false).hidden(true).ignore(true).parents(false).threads(2);
+                        b
+                    };
+                    let base = scratch.path.clone();
+                    let relp = |p: &Path| p.strip_prefix(&base).unwrap_or(p).to_string_lossy().to_string();
+                    let mut a: BTreeMap<String, usize> = BTreeMap::new();
+                    let mut a_err = 0;
+                    for e in mk().build() {
+                        match e {
+                            Ok(e) => *a.entry(relp(e.path())).or_insert(0) += 1,
+                            Err(_) => a_err += 1,
+                        }
+                    }
+                    let bl = Arc::new(Mutex::new((BTreeMap::<String, usize>::new(), 0usize)));
+                    mk().build_parallel().run(|| {
+                        let bl = bl.clone();
+                        let base = base.clone();
+                        Box::new(move |e| {
+                            let mut g = bl.lock().unwrap();
+                            match e {
+                                Ok(e) => {
+                                    let r = e.path().strip_prefix(&base).unwrap_or(e.path()).to_string_lossy().to_string();
+                                    *g.0.entry(r).or_insert(0) += 1;
+                                }
+                                Err(_) => g.1 += 1,
+                            }
+                            WalkState::Continue
+                        })
+                    });
+                    let (b, b_err) = bl.lock().unwrap().clone();
+                    local.walks += 2;
+                    let mut why = vec![];
+                    if a != want {
+                        why.push("the single-threaded walker differs from the reference");
+                    }
+                    if b != want {
+                        why.push("the parallel walker differs from the reference");
+                    }
+                    if a_err + b_err > 0 {
+                        why.push("unexpected error entries");
+                    }
+                    if !why.is_empty() && local.disc.len() < 10 {
+                        local.disc.push((
+                            format!("nested-ignore | {} | .ignore in {} names {}", tree_text(t), holder.map_or("root".to_string(), |h| rel_path(t, h)), name_of(named)),
+                            json!({"kind":"nested-ignore","tree":tree_text(t),"ignore_file_in":holder.map_or("root".to_string(), |h| rel_path(t, h)),"rule":name_of(named),"why":why,
+                                   "serial":a.keys().collect::<Vec<_>>(),"parallel":b.keys().collect::<Vec<_>>(),"reference":want.keys().collect::<Vec<_>>()}),
+                        ));
+                    }
+                }
+                let mut o = out.lock().unwrap();
+                o.walks += local.walks;
+                o.cases += local.cases;
+                o.cases_where_the_rule_hides_something += local.cases_where_the_rule_hides_something;
+                o.cases_with_the_named_entry_outside_the_subtree += local.cases_with_the_named_entry_outside_the_subtree;
+                o.disc.extend(local.disc);
+            });
+        }
+    });
+    out.into_inner().unwrap()
+}
+
 pub fn run(args: &Args) -> ! {
     if let Some(r) = &args.replay {
         replay(r);
@@ -370,6 +543,15 @@ pub fn run(args: &Args) -> ! {
     let _ = std::fs::remove_dir_all(&other);
     std::fs::create_dir_all(other.join("xd")).unwrap_or_else(|_| machinery_error("cannot create the other-device directory"));
     std::fs::write(other.join("xd/xf"), b"x").unwrap();
+    // a whole second root on the other device: an ignored / filtered
+    // directory with content, and a plain one
+    std::fs::create_dir_all(other.join("xr/n0/deep")).unwrap();
+    std::fs::create_dir_all(other.join("xr/n1")).unwrap();
+    std::fs::write(other.join("xr/.ignore"), b"n0\n").unwrap();
+    std::fs::write(other.join("xr/n0/f0"), b"x").unwrap();
+    std::fs::write(other.join("xr/n0/deep/f1"), b"x").unwrap();
+    std::fs::write(other.join("xr/n1/f2"), b"x").unwrap();
+    std::fs::write(other.join("xr/g"), b"x").unwrap();
     {
         use std::os::unix::fs::MetadataExt;
         let a = std::fs::metadata(&other).map(|m| m.dev()).unwrap_or(0);
@@ -396,6 +578,9 @@ pub fn run(args: &Args) -> ! {
         DirAndFile,
         File,
         LinkToDir,
+        /// the directory and a second root on another file system
+        TwoDevices,
+        TwoDevicesRev,
     }
     let work: Vec<(usize, usize, RootKind)> = {
         let mut w = vec![];
@@ -408,6 +593,10 @@ pub fn run(args: &Args) -> ! {
                 }
                 if ti < 2 && ci % 8 == 0 {
                     w.push((ti, ci, RootKind::File));
+                }
+                if ti < 4 && (cs[ci].ignore_n0 || cs[ci].filter != Filt::None) && cs[ci].max_depth != Some(0) {
+                    w.push((ti, ci, RootKind::TwoDevices));
+                    w.push((ti, ci, RootKind::TwoDevicesRev));
                 }
             }
         }
@@ -445,6 +634,8 @@ pub fn run(args: &Args) -> ! {
                             let _ = std::os::unix::fs::symlink(&fx.root, &link_root);
                             vec![link_root.clone()]
                         }
+                        RootKind::TwoDevices => vec![fx.root.clone(), fx.other.join("xr")],
+                        RootKind::TwoDevicesRev => vec![fx.other.join("xr"), fx.root.clone()],
                     };
                     let a = serial(fx, c, &roots);
                     let b = parallel(fx, c, &roots);
@@ -503,10 +694,22 @@ pub fn run(args: &Args) -> ! {
         }
     });
     let _ = std::fs::remove_dir_all(&other);
-    let total = total.into_inner().unwrap();
+    let mut total = total.into_inner().unwrap();
     for (f, k, v) in total.disc.iter() {
         verdict.discrepancy(*f, k, v.clone());
     }
+    let nested = nested_ignore_layer(tier);
+    for (k, v) in nested.disc.iter() {
+        verdict.discrepancy(None, k, v.clone());
+    }
+    if nested.cases_where_the_rule_hides_something == 0 || nested.cases_with_the_named_entry_outside_the_subtree == 0 {
+        machinery_error("C06: nested-ignore layer is vacuous");
+    }
+    total.walks += nested.walks;
+    ev.set("nested_ignore_trees", nested.trees);
+    ev.set("nested_ignore_cases", nested.cases);
+    ev.set("nested_ignore_cases_where_the_rule_hides_something", nested.cases_where_the_rule_hides_something);
+    ev.set("nested_ignore_cases_with_the_named_entry_outside_the_holder", nested.cases_with_the_named_entry_outside_the_subtree);
     if total.with_cycle == 0 || total.with_error == 0 || total.nontrivial == 0 {
         machinery_error("C06: a mandatory coverage counter is zero");
     }
@@ -520,9 +723,10 @@ pub fn run(args: &Args) -> ! {
     ev.set(
         "rule",
         format!(
-            "trees: every tree with <= 2 nodes{} over node kinds {{dir, small file, large file, hidden file, symlink->file, symlink->dir, symlink->ancestor (cycle), dangling symlink, symlink->directory on another device (/tmp vs /dev/shm)}}, canonical by non-decreasing parent index; configurations: max_depth {{inf,0,1,2}} x max_filesize {{inf,3}} x follow_links x same_file_system x entry filter {{none, reject one name, reject directories}} x hidden filter x an .ignore rule x threads {}; roots: the directory, the directory plus a file, a file, a symlink to the directory. Oracle, three-way: build() and build_parallel() yield the same entries exactly once with the same number of error entries, and both equal an independent recursive lister written from the documentation (reachable without passing a filtered-out directory; depth, size, same-file-system, symlink-following rules; a followed cycle is an error and the walk ends).",
+            "trees: every tree with <= 2 nodes{} over node kinds {{dir, small file, large file, hidden file, symlink->file, symlink->dir, symlink->ancestor (cycle), dangling symlink, symlink->directory on another device (/tmp vs /dev/shm)}}, canonical by non-decreasing parent index; configurations: max_depth {{inf,0,1,2}} x max_filesize {{inf,3}} x follow_links x same_file_system x entry filter {{none, reject one name, reject directories}} x hidden filter x an .ignore rule x threads {}; roots: the directory, the directory plus a file, a file, a symlink to the directory. Oracle, three-way: build() and build_parallel() yield the same entries exactly once with the same number of error entries, and both equal an independent recursive lister written from the documentation (reachable without passing a filtered-out directory; depth, size, same-file-system, symlink-following rules; a followed cycle is an error and the walk ends). Roots on two file systems (the tree on /dev/shm and a second root on /tmp holding an ignored directory with content), in both orders, for the configurations with an ignore rule or a filter. Layer 2 (nested ignore files): every tree of directories and files with 2..{} nodes x an .ignore file in the root or in any ONE directory x a rule naming any other node: the name is hidden exactly inside the holder's subtree, in both walkers (the single-threaded walker pops its ignore stack on leaving directories, by one or several levels at once).",
             if tier == Tier::Quick { " and every 11th tree with 3 nodes" } else { " and 3 nodes" },
-            if tier == Tier::Quick { "{2}" } else { "{2,4,16}" }
+            if tier == Tier::Quick { "{2}" } else { "{2,4,16}" },
+            tier.pick(4, 5)
         ),
     );
     ev.set("samples", json!([{"tree": tree_text(&trees[trees.len() / 2]), "conf": format!("{:?}", cs[cs.len() / 3])}]));
